@@ -177,3 +177,26 @@ Fixpoint run (ct : amap) (fuel : nat) (s : state) (ops : list op) : state * list
   | o :: r => let (s1, x) := step ct fuel s o in
               let (s2, xs) := run ct fuel s1 r in (s2, x :: xs)
   end.
+
+(* ---- Remove with the iteration order of Go's map chosen by the environment ----
+   `for successorKey := range m.successors[nodeKey]` visits the set in an unspecified
+   order.  [remove_with] takes that order as an argument (any duplicate-free list with the
+   same members as the set; anything else falls back to the model's own order), and
+   [run_orders] is [run] with an order attached to every operation (used by ORemove only). *)
+Fixpoint nodup_b (l : list node) : bool :=
+  match l with [] => true | x :: r => negb (smem x r) && nodup_b r end.
+Definition valid_order (order succs : list node) : bool :=
+  nodup_b order && forallb (fun x => smem x succs) order && forallb (fun x => smem x order) succs.
+Definition remove_with (g : graph) (n : node) (order : list node) : graph * list node :=
+  if valid_order order (getd (g_succs g) n) then remove_ord g n order else remove g n.
+Definition step_ord (ct : amap) (fuel : nat) (s : state) (oo : op * list node) : state * out :=
+  match fst oo with
+  | ORemove n => let (g, d) := remove_with (s_g s) n (snd oo) in (mkState g (s_sok s), RDang d)
+  | o => step ct fuel s o
+  end.
+Fixpoint run_orders (ct : amap) (fuel : nat) (s : state) (ops : list (op * list node)) : state * list out :=
+  match ops with
+  | [] => (s, [])
+  | o :: r => let (s1, x) := step_ord ct fuel s o in
+              let (s2, xs) := run_orders ct fuel s1 r in (s2, x :: xs)
+  end.
